@@ -241,9 +241,11 @@ def child_env(hashseed):
 def spawn_class(pid, verif_seed, tier, k, indices, workers, tag, wall_cap):
     out = os.path.join(scratch_root(),
                        f'aurel-verif-out-{os.getpid()}-{tag}-{k}.jsonl')
-    spec = json.dumps({'pid': pid, 'seed': verif_seed, 'tier': tier,
-                       'indices': indices, 'workers': workers, 'out': out})
-    p = subprocess.run([PY, CLI, '--_class', spec],
+    specfile = out + '.spec'
+    with open(specfile, 'w') as f:      # (a long index list does not fit argv)
+        json.dump({'pid': pid, 'seed': verif_seed, 'tier': tier,
+                   'indices': indices, 'workers': workers, 'out': out}, f)
+    p = subprocess.run([PY, CLI, '--_class', specfile],
                        env=child_env(HASHSEEDS[k]), cwd=VERIF,
                        stdout=subprocess.PIPE, stderr=subprocess.PIPE,
                        text=True, timeout=wall_cap)
@@ -258,6 +260,8 @@ def spawn_class(pid, verif_seed, tier, k, indices, workers, tag, wall_cap):
                     r['hashseed'] = HASHSEEDS[k]
                     results.append(r)
         os.remove(out)
+    if os.path.exists(specfile):
+        os.remove(specfile)
     if p.returncode != 0 or not done:
         raise HarnessError(
             f'class {k} child failed rc={p.returncode}\n'
